@@ -294,6 +294,44 @@ Section Proofs.
     destruct Q as (<- & <- & <- & _ & _). destruct ra as [vs | ?]; simp; norm.
     dw (w_call w x (valof o) vs sa).
   Qed.
+
+  Lemma sim_weaken L L' m1 m2 : incl L L' -> sim L m1 m2 -> sim L' m1 m2.
+  Proof. intros Hi Hs k Hk. apply Hs. intro; apply Hk, Hi; assumption. Qed.
+
+  (* t[k] ||= v / t[k] &&= v with both object and key captured:
+     (_n = t)[_n1 = k] || (_n[_n1] = v) *)
+  Theorem lowerLogicalAsg_index_captured F op t k v n :
+    f_logasg F = true ->
+    is_inline_value t = false -> is_inline_value k = false ->
+    ~ In n (tmps k) -> ~ In n (tmps v) -> ~ In (n + 1) (tmps v) ->
+    forall r, lowerLogicalAsg F op (EIndex t k OcNone) v n = Some r ->
+    (op = BOr -> obs_eq (fst r) (EOpAsg AOr (EIndex t k OcNone) v)) /\
+    (op = BAnd -> obs_eq (fst r) (EOpAsg AAnd (EIndex t k OcNone) v)).
+  Proof.
+    intros HF Hi Hik Hnk Hn Hn1 r. unfold lowerLogicalAsg, lowerAssignmentOperator, capture. rewrite HF, Hi, Hik.
+    intro E; injection E as <-. cbn [fst].
+    assert (Hdk : forall j, In j [n] -> ~ In j (tmps k)) by (intros j [<- | []]; exact Hnk).
+    assert (Hdv : forall j, In j [n; n + 1] -> ~ In j (tmps v)) by (intros j [<- | [<- | []]]; assumption).
+    split; intros -> m s; simp.
+    - dev t m s.
+      simev k (tset m0 n (valof o)) m0 s0 (sim_tset [n] m0 n (valof o) (or_introl eq_refl)) Hdk.
+      dw (w_get w (valof o) (valof o0) s1).
+      destruct (truthy x); simp; norm.
+      rewrite tget_tset_other by lia. rewrite (Hk n (or_introl eq_refl)). rewrite !tget_tset_same.
+      assert (Hs2 : sim [n; n + 1] (tset ml (n + 1) (valof o0)) mn).
+      { apply sim_tset_l; [right; left; reflexivity |]. eapply sim_weaken; [| exact Hs]. intros j [<- | []]; left; reflexivity. }
+      simev v (tset ml (n + 1) (valof o0)) mn s2 Hs2 Hdv.
+      dw (w_set w (valof o) (valof o0) (valof o1) s3).
+    - dev t m s.
+      simev k (tset m0 n (valof o)) m0 s0 (sim_tset [n] m0 n (valof o) (or_introl eq_refl)) Hdk.
+      dw (w_get w (valof o) (valof o0) s1).
+      destruct (truthy x); simp; norm.
+      rewrite tget_tset_other by lia. rewrite (Hk n (or_introl eq_refl)). rewrite !tget_tset_same.
+      assert (Hs2 : sim [n; n + 1] (tset ml (n + 1) (valof o0)) mn).
+      { apply sim_tset_l; [right; left; reflexivity |]. eapply sim_weaken; [| exact Hs]. intros j [<- | []]; left; reflexivity. }
+      simev v (tset ml (n + 1) (valof o0)) mn s2 Hs2 Hdv.
+      dw (w_set w (valof o) (valof o0) (valof o1) s3).
+  Qed.
 End Proofs.
 
 
